@@ -182,6 +182,7 @@ func mergeObjects(d *dataTreeNavigator, context Context, lhs *CandidateNode, rhs
 		log.Debugf("pathIndexToStartFrom: %v", pathIndexToStartFrom)
 	}
 
+	var keptPaths [][]interface{}
 	for el := results.Front(); el != nil; el = el.Next() {
 		candidate := el.Value.(*CandidateNode)
 
@@ -189,6 +190,21 @@ func mergeObjects(d *dataTreeNavigator, context Context, lhs *CandidateNode, rhs
 
 		if candidate.Tag == "!!merge" {
 			continue
+		}
+
+		if preferences.AssignPrefs.OnlyWriteNull {
+			// what is already there stays as it is, so there is nothing to merge into below a value
+			// of another kind ({a: [1]} *n {a: {b: 2}} would index the sequence with 'b')
+			if isBelowAnyPath(candidate.GetPath(), keptPaths) {
+				continue
+			}
+			kept, err := keepsValueOfAnotherKind(d, context, pathIndexToStartFrom, lhs, candidate, preferences)
+			if err != nil {
+				return nil, err
+			} else if kept {
+				keptPaths = append(keptPaths, candidate.GetPath())
+				continue
+			}
 		}
 
 		err := applyAssignment(d, context, pathIndexToStartFrom, lhs, candidate, preferences)
@@ -199,6 +215,49 @@ func mergeObjects(d *dataTreeNavigator, context Context, lhs *CandidateNode, rhs
 		log.Debugf("applied assignment to LHS: %v", NodeToString(lhs))
 	}
 	return lhs, nil
+}
+
+func isBelowAnyPath(path []interface{}, ancestors [][]interface{}) bool {
+	for _, ancestor := range ancestors {
+		if len(path) <= len(ancestor) {
+			continue
+		}
+		below := true
+		for i := range ancestor {
+			if path[i] != ancestor[i] {
+				below = false
+				break
+			}
+		}
+		if below {
+			return true
+		}
+	}
+	return false
+}
+
+// true when rhs is a map or sequence and lhs already holds something else (not null) at the same place
+func keepsValueOfAnotherKind(d *dataTreeNavigator, context Context, pathIndexToStartFrom int, lhs *CandidateNode, rhs *CandidateNode, preferences multiplyPreferences) (bool, error) {
+	if rhs.IsMapKey || (rhs.Kind != MappingNode && rhs.Kind != SequenceNode) {
+		return false, nil
+	}
+	lhsPath := rhs.GetPath()[pathIndexToStartFrom:]
+	if len(lhsPath) == 0 {
+		return false, nil
+	}
+	readPrefs := preferences.TraversePrefs
+	readPrefs.DontAutoCreate = true
+	existing, err := d.GetMatchingNodes(context.SingleReadonlyChildContext(lhs), createTraversalTree(lhsPath, readPrefs, false))
+	if err != nil {
+		return false, err
+	}
+	for el := existing.MatchingNodes.Front(); el != nil; el = el.Next() {
+		node := el.Value.(*CandidateNode)
+		if node.Kind != AliasNode && node.Tag != "!!null" && node.Kind != rhs.Kind {
+			return true, nil
+		}
+	}
+	return false, nil
 }
 
 func applyAssignment(d *dataTreeNavigator, context Context, pathIndexToStartFrom int, lhs *CandidateNode, rhs *CandidateNode, preferences multiplyPreferences) error {
